@@ -778,6 +778,10 @@ def check(ctx):
         fd.rule = 'C15.TOKENS(' + fd.rule + ')'
     for o in ctx.obligations[no:]:
         o['rule'] = 'C15.TOKENS(' + o['rule'] + ')'
+    # ... and which words are quoted strings rather than leaves (C05.QUOTED)
+    from . import c05
+    ctx.borrow('C15.TOKENS', c05.check_quoted, only=['C05.QUOTED'])
+    ctx.borrow('C15.TOKENS', c05.check_quoted_peel, only=['C05.QUOTED'])
     check_roundtrip(ctx, pr, tf, model, pred, opens, closes)
     # C15.LIST-ARITY: rules given in the old list form are parsed rules too;
     # their printed form is a fixed point only if the translator never
